@@ -20,7 +20,7 @@ pub static PROP: PropDef = PropDef {
         "integers: valid-by-construction inputs use at most 9 continuation bytes so no implementation limit is involved",
     ],
     tape_len: 160,
-    random_cases: |t| t.pick(400_000, 12_000_000),
+    random_cases: |t| t.pick(1_600_000, 40_000_000),
     run_tape,
     exhaustive: Some(exhaustive),
     run_direct: Some(run_direct),
